@@ -45,7 +45,13 @@ pub fn run(ctx: &mut Ctx) {
                 0 => {
                     c.dw = cw;
                     c.dh = ch;
-                    c.crop = if whole { Crop::None } else { Crop::Box([l as f64, t as f64, cw as f64, ch as f64]) };
+                    c.crop = if whole {
+                        // the whole source: no crop option, or fit_into_destination with a destination of the source's size
+                        // (the fitted box of equal sizes is the whole source for every centering)
+                        if rng.chance(1, 3) { Crop::Fit(*rng.pick(&[0.5, 0.0, 1.0, 0.3]), *rng.pick(&[0.5, 0.0, 1.0, 0.8])) } else { Crop::None }
+                    } else {
+                        Crop::Box([l as f64, t as f64, cw as f64, ch as f64])
+                    };
                 }
                 1 => {
                     // rows match: dh == ch, integer top; x arbitrary (maybe fractional)
